@@ -34,7 +34,7 @@ TEXT = {
          "doctor's blind spots bound the 'no issue' clause; independent string-list encoder in the harness"),
  "C04": ("The complete diff event stream of the real differ is compared with a set-difference model keyed by key hash for (T1,T2), (T2,T1), (T1,T1) over generated table pairs incl. empty sides and shifted block boundaries; the events are also resolved back to rows through the readers the diff command uses, the CSV report of `wrgl diff --no-gui` and the summary of `wrgl diff --all` are parsed and judged, and a single failing store read must surface as an error.",
          "inputs are C03-valid tables with unique keys; common keys under differing columns are don't-cares; keyless tables with differing column lists are not diffed row by row by design and not judged"),
- "C05": ("A cell-level reference merge with explicit don't-cares is compared with Merger/RowCollector output through three paths (rows, blocks+ingest+structural monitor, real `wrgl merge`). All structural classes are judged (the key-not-first class was an open finding until its repair e14f703); for keyless tables whose columns change wrgl (since a repair) refuses the merge, which is accepted for that class only.",
+ "C05": ("A cell-level reference merge with explicit don't-cares is compared with Merger/RowCollector output through three paths (rows, blocks+ingest+structural monitor, real `wrgl merge`). All structural classes are judged (the key-not-first class was an open finding until its repair e14f703); for keyless tables whose columns change wrgl (since a repair) refuses the merge, which is accepted for that class only (column reorders included). Merges by the real binary on a store missing one object must fail with the branch untouched or be right.",
          "N<=3 branches; the interactive merge UI is not driven; cells where the statement gives no rule accept any outcome"),
  "C06": ("Round trip, re-encode identity and content addressing for generated commits, tables, blocks, block indices, profiles; the packfile length header exhaustively over a range plus all 2^k boundaries and samples.",
          "instants outside [1970,2286) excluded; profiles are those the profiler produces"),
@@ -42,9 +42,9 @@ TEXT = {
          "in-memory transport; sender's precondition (tables of common commits complete at the destination) is respected"),
  "C08": ("ClosedSetsFinder outputs over exhaustive small DAG shapes, random DAGs and growing merge families are judged against harness-computed ancestor sets, with a counted-store-reads bound standing in for 'polynomial'; duplicate wants and a further round after a refusal included.",
          "work bound 8(n+r)^2+64 on the stated families; repeated entries are not judged in themselves"),
- "C09": ("Real `wrgl fetch/push/pull` (and UploadPackSession directly) run in-process against a reference HTTP server built from wrgl's own finder/sender/receiver; object and ref snapshots of both sides plus the server's request log decide completeness, identity and idempotence; a quarter of the exchanges are retries after an attempt interrupted by an injected store failure, single-branch fetches face remotes with off-branch tags, full fetches follow earlier shallow ones (incl. refs created on commits left shallow, and `fetch tables`), and pushes come from shallow clones.",
+ "C09": ("Real `wrgl fetch/push/pull` (and UploadPackSession directly) run in-process against a reference HTTP server built from wrgl's own finder/sender/receiver; object and ref snapshots of both sides plus the server's request log decide completeness, identity and idempotence; a quarter of the exchanges are retries after an attempt interrupted by an injected store failure, single-branch fetches face remotes with off-branch tags, full fetches follow earlier shallow ones (incl. refs created on commits left shallow, and `fetch tables`, tags no refspec names, a depth fetch after a depth fetch), pushes come from shallow clones or from repositories tracking another remote, two refspecs may share a destination, and `fetch --all` may address two remotes on one host.",
          "the reference server (harness/refserver) is trusted; no authentication, retries or real wrgld"),
- "C10": ("Ref values and full reflogs before/after real fetch (also --all from configured refspecs)/push (tags from several source spellings)/pull/merge commands, judged against the harness graph model: forward-only moves without force (also for merge targets spelled below the branch and for shallow merged commits), tags never clobbered (also hierarchical tag names), rejections reported while other refs still update, exact fast-forward, faithful reflog entries.",
+ "C10": ("Ref values and full reflogs before/after real fetch (also --all from configured refspecs)/push (tags from several source spellings)/pull/merge commands, judged against the harness graph model: forward-only moves without force (also for merge targets spelled below the branch and for shallow merged commits), tags never clobbered (also hierarchical tag names), rejections reported while other refs still update, exact fast-forward (the mode in force coming from a flag or from merge.fastForward), a pull never resets the local branch (also with a '+' refspec and a branch name that does not resolve), faithful reflog entries.",
          "client-side gating only; the reference server applies what it is sent"),
  "C11": ("All labelled commit DAGs with <=2 parents up to n=5 (quick) / n=6 (thorough) x four timestamp modes: IsAncestorOf for all pairs, history walks, SeekCommonAncestor for all pairs and triples, against harness ancestor sets; plus interrupted and resumed walks on CommitsQueue (RemoveAncestors, PopUntil) against a model. Exhaustive within the bound, sampled beyond.",
          "which common ancestor is chosen is free unless an input is one"),
@@ -52,7 +52,7 @@ TEXT = {
          "objects that never belonged to a commit are don't-cares"),
  "C13": ("Fault enumeration: for every scenario EVERY persistent write position is visited, once killing the real `wrgl` process before the write (SIGKILL via verifhook) and once failing the write; the reopened repository must satisfy the invariant monitor and a re-run must reach the uninterrupted outcome. Scenarios: commit (new, existing, shared-table, reverted data), merge (ff, no-ff, real), prune, transaction commit, fetch and pull against the in-worker reference server. Also in-process over recording stores for ingest, receive, prune.",
          "a single badger update / SQL transaction is atomic and durable against process death; crashes inside a write and power loss are not modelled"),
- "C14": ("Fault enumeration over every store operation (reads and writes) of transaction Commit and Discard, as error and as process death, x every branch mix up to 3, each 4 times (map order), plus the real `wrgl transaction commit` killed/failed at every write, plus unrelated commits landing on already-moved branches before the re-run, plus a foreign read cursor on the SQLite file during each branch move, plus discard after a half-applied commit, reapply after later work, hierarchical branch names, plus the double-commit/discard sequences; the atomicity oracle inspects heads, reflogs (txid entries), status and staged refs and re-runs.",
+ "C14": ("Fault enumeration over every store operation (reads and writes) of transaction Commit and Discard, as error and as process death, x every branch mix up to 3, each 4 times (map order), plus the real `wrgl transaction commit` killed/failed at every write, plus unrelated commits landing on already-moved branches before the re-run, plus a foreign read cursor on the SQLite file during each branch move, plus a foreign write transaction during each read of the ref store, plus discard after a half-applied commit, reapply after later work, hierarchical branch names, plus the double-commit/discard sequences; the atomicity oracle inspects heads, reflogs (txid entries), status and staged refs and re-runs.",
          "concurrent committers of one transaction are not modelled"),
  "C15": ("Every return value of the ref store (SQL memory/file, file store) is compared step by step with a map + per-name log model over an alphabet built to expose wildcard, case and prefix confusion; concurrent clients on one SQLite file are checked for linearizability per name with porcupine (failed operations left open with unknown effect) and for reflog-chain integrity.",
          "rename/copy onto existing names must fail without effect; file store restricted to what it implements"),
